@@ -75,7 +75,8 @@ pub struct SchedReader<'a> {
     step: usize,
     pub fail_at: Option<usize>,
     /// which error the failing reads return: 0 a custom error carrying
-    /// INJECTED-R-k, 1 a raw OS error (EIO), 2 a bare ErrorKind (no payload)
+    /// INJECTED-R-k, 1 a raw OS error (EIO), 2 a bare ErrorKind (no payload), 3 / 4 custom
+    /// errors of kind UnexpectedEof / InvalidData
     pub fail_kind: u8,
     /// when set: once this many bytes were delivered, ONE read fails with
     /// ErrorKind::Interrupted; the next read continues normally
@@ -108,6 +109,9 @@ pub fn injected_read_error_kind(k: usize, kind: u8) -> io::Error {
     match kind {
         1 => io::Error::from_raw_os_error(libc::EIO),
         2 => io::ErrorKind::TimedOut.into(),
+        // kinds that parsers produce themselves for a short input, with the reader's own text
+        3 => io::Error::new(io::ErrorKind::UnexpectedEof, format!("INJECTED-R-{} (connection cut)", k)),
+        4 => io::Error::new(io::ErrorKind::InvalidData, format!("INJECTED-R-{} (bad checksum)", k)),
         _ => injected_read_error(k),
     }
 }
@@ -185,6 +189,28 @@ impl<'a> Read for OverReportReader<'a> {
             Ok(n.saturating_add(self.excess))
         } else {
             Ok(n)
+        }
+    }
+}
+
+/// Keeps the letter of the Read contract (never claims more than the buffer
+/// holds) but on one call does not write the bytes it claims: the caller's buffer
+/// keeps whatever it held.
+pub struct UnwrittenReader<'a> {
+    pub inner: SchedReader<'a>,
+    pub on_read: usize,
+    pub count: usize,
+}
+
+impl<'a> Read for UnwrittenReader<'a> {
+    fn read(&mut self, buf: &mut [u8]) -> io::Result<usize> {
+        let k = self.count;
+        self.count += 1;
+        if k == self.on_read {
+            let mut scratch = vec![0u8; buf.len()];
+            self.inner.read(&mut scratch)
+        } else {
+            self.inner.read(buf)
         }
     }
 }
